@@ -179,10 +179,10 @@ UNIT = {
                     ' proof { lemma_arr_ends(vals, 0, arr_at(r, e0, pa, %s)); }' % D1},
         {'rule': 'R1', 'find': 'if lexer.peek()?.equals(blit("]")) { break; }',
          'replace': 'proof { lemma_arr_unfold(r, e0, lexer.pos as int, %s); } if lexer.peek()?.equals(blit("]")) { proof { let tk = tok(lexer.buf@, lexer.pos as int); if tk is Some { lemma_arr_ends(vals, tk.unwrap().1, None); } } break; }' % D1},
-        {'rule': 'R1', 'find': 'let element = t!(parse_with_lexer_ctx(lexer, r, ctx, ParseFlags::ANY, max_depth-1));',
+        {'rule': 'R1', 'regex': r'let element = t!\(parse_with_lexer_ctx\(lexer, r, ctx, ([\w:| ]+), max_depth-1\)\);',
          'replace': 'let ghost pk = lexer.pos as int; let ghost xk = obj_at(r, e0, pk, %s);'
                     ' proof { if xk is Some { lemma_any_allows(xk.unwrap().0); } }'
-                    ' let element = t!(parse_with_lexer_ctx(lexer, r, ctx, ParseFlags::ANY, max_depth-1));'
+                    r' let element = t!(parse_with_lexer_ctx(lexer, r, ctx, \1, max_depth-1));'
                     ' proof { if xk is Some { let v = xk.unwrap().0; lemma_arr_step(vals, v, arr_at(r, e0, lexer.pos as int, %s)); lemma_rep_seq_push(array@, vals, element, v); vals = vals.push(v); } }' % (D1, D1)},
         # strings: `for x in it { body }` spelled as its definition `loop { match it.next() { None => break, Some(x) => body } }` (R6)
         {'rule': 'R1', 'count': 2, 'find': 'let mut string = IBytes::new();',
@@ -190,7 +190,7 @@ UNIT = {
                     ' proof { lemma_str_ends(string@, 0, lit_str(rem, 0, 0)); lemma_str_ends(string@, 0, hex_str(rem, 0)); }'},
         {'rule': 'R6', 'find': 'for character in string_lexer.iter() { string.push(t!(character)); }', 'replace': STR_LOOP},
         {'rule': 'R6', 'find': 'for byte in hex_string_lexer.iter() { string.push(t!(byte)); }', 'replace': HEX_LOOP},
-        {'rule': 'R7', 'count': 2, 'find': 'string = t!(ctx.decrypt(&mut string)).into();', 'replace': 'string = t!(hoist_decrypt_into(ctx, &mut string));'},
+        {'rule': 'R7', 'count': '*', 'find': 'string = t!(ctx.decrypt(&mut string)).into();', 'replace': 'string = t!(hoist_decrypt_into(ctx, &mut string));'},
         {'rule': 'R3', 'find': 'PdfError::UnknownType {pos: lexer.get_pos(), first_lexeme: first_lexeme.to_string(), rest: lexer.read_n(50).to_string()}',
          'replace': '{ let pos_ = lexer.get_pos(); let _rest = lexer.read_n(50); PdfError::UnknownType { pos: pos_ } }'},
      ]},
@@ -212,10 +212,10 @@ UNIT = {
         {'rule': 'R3', 'find': 'lexeme: token.to_string(),', 'replace': ''},
         {'rule': 'R1', 'find': 'let token = t!(lexer.next());', 'replace': 'proof { lemma_dict_unfold(r, e0, lexer.pos as int, max_depth as nat, m); } let token = t!(lexer.next());'},
         {'rule': 'R1', 'find': 'if token.starts_with(blit("/")) {', 'replace': 'proof { lemma_starts_slash(token.slice@); } if token.starts_with(blit("/")) {'},
-        {'rule': 'R1', 'find': 'let obj = t!(parse_with_lexer_ctx(lexer, r, ctx, ParseFlags::ANY, max_depth));',
+        {'rule': 'R1', 'regex': r'let obj = t!\(parse_with_lexer_ctx\(lexer, r, ctx, ([\w:| ]+), max_depth\)\);',
          'replace': 'let ghost xk = obj_at(r, e0, lexer.pos as int, max_depth as nat);'
                     ' proof { if xk is Some { lemma_any_allows(xk.unwrap().0); } }'
-                    ' let obj = t!(parse_with_lexer_ctx(lexer, r, ctx, ParseFlags::ANY, max_depth));'},
+                    r' let obj = t!(parse_with_lexer_ctx(lexer, r, ctx, \1, max_depth));'},
         {'rule': 'R1', 'find': 'dict.insert(key, obj);',
          'replace': 'proof { if xk is Some { lemma_rep_map_insert(dict@, m, key@, obj, xk.unwrap().0); m = m.insert(key@, xk.unwrap().0); } } dict.insert(key, obj);'}]},
 
@@ -226,7 +226,10 @@ UNIT = {
                  # body = exactly /Length bytes after `stream` + LF|CRLF, then `endstream`; /Length direct or through a reference (C11)
                  ('value_stream', 'forall|m: Map<Seq<u8>, Val>| #[trigger] rep_dict(dict, m) ==>'
                                   ' (stream_at(r, env_of(old(lexer), Some(ctx)), m, old(lexer).pos as int) matches Some(x)'
-                                  ' ==> (res matches Ok(s) && rep(Primitive::Stream(s), x.0) && final(lexer).pos == x.1))')],
+                                  ' ==> (res matches Ok(s) && rep(Primitive::Stream(s), x.0) && final(lexer).pos == x.1))'),
+                 # converse for the framing (7.3.8.1): a stream is only returned when the keyword `endstream` follows its data, and it is consumed
+                 ('endstream_required', 'res matches Ok(s) ==> (s.inner matches StreamInner::InFile { id: i, file_range: fr } && fr.start <= fr.end'
+                                        ' && (tok(old(lexer).buf@, fr.end - old(lexer).file_offset) matches Some(t) && old(lexer).buf@.subrange(t.0, t.1) == K_ENDSTREAM() && final(lexer).pos == t.1))')],
      'rewrites': [{'rule': 'R1', 'regex': r'\A\{', 'replace': '{\n    broadcast use {b_tok, b_ws_end};\n    proof { lemma_lits(); reveal(stream_at); }'},
         {'rule': 'R5', 'find': 'Some(&Primitive::Integer(n)) if n >= 0 => n as usize,',
          'replace': 'Some(Primitive::Integer(n_)) if *n_ >= 0 => { let n = *n_; n as usize },'},
